@@ -37,6 +37,26 @@ def probe():
     return out
 
 
+def server_request_consumes():
+    """a request is left pending; the server's own ping arrives under its id; then the genuine result: does the result still reach the request's
+    callback (and was the ping answered)?  False = the current source takes only answers for answers"""
+    from lib import iqkinds
+    from yowsup.structs import ProtocolTreeNode as N
+    from yowsup.layers.protocol_iq.protocolentities import PingIqProtocolEntity, ResultIqProtocolEntity
+    stack, bottom, iface, top = iqkinds.protocol_stack()
+    calls = []
+    ent = PingIqProtocolEntity()
+    iface._sendIq(ent, lambda e, o: calls.append("success"), lambda e, o: calls.append("error"))
+    n0 = len(bottom.sent)
+    try:
+        bottom.toUpper(N("iq", {"id": ent.getId(), "type": "get", "xmlns": "urn:xmpp:ping", "from": "s.whatsapp.net"}))
+        pongs = [n for n in bottom.sent[n0:] if n.tag == "iq" and n["type"] == "result"]
+        bottom.toUpper(ResultIqProtocolEntity(_id=ent.getId(), _from="s.whatsapp.net").toProtocolTreeNode())
+    except Exception:
+        return True
+    return not (len(pongs) == 1 and calls == ["success"])
+
+
 def generate():
     rows = probe()
 
@@ -50,5 +70,8 @@ def generate():
              ",\n".join("  { owner := %d, registers := %s, succ := %s, err := %s }" % (o, b(r), b(s), b(e)) for n, o, r, s, e in rows))
     L.append("]")
     L.append("/- kinds: %s -/" % ", ".join(n for n, *_ in rows))
-    L += ["end Yow.Gen", ""]
+    L += ["/-- does the current source treat a request of the server's own, arriving under the id of a pending request, as the answer to it?",
+          "    (probed: a request is left pending, the server's ping arrives under its id, then the genuine result) -/",
+          "def serverRequestConsumes : Bool := %s" % b(server_request_consumes()),
+          "end Yow.Gen", ""]
     return "\n".join(L)
